@@ -15,6 +15,9 @@ Correspondence:
 Generator classes: random mixes; remove-then-clear-then-refill (run with the ASan quarantine off so that freed
 leaf buffers are reused, see REUSE_ENV).  A model/implementation disagreement aims a targeted search
 (disagreement_probes) for an observable failure before it is reported as `no-failing-input-found`.
+Callers: the real tools::SelfConfig::getDefaultNearestNeighbors (harness/nn_default.cpp, libompl) on spaces x planners
+vs the model defaultNN (default_selection); every kind=gnat history is also run through kind=gnatnts with the same
+seed and the two real variants must agree on results, size and list (variants_agree).
 Spec oracle (Python, on the implementation's output only, independent of the model): abstract
 multiset, size and list after *every* operation, brute-force distance lists for every query, answers
 are sub-multisets of the current contents, sorted; an independent GnatInv checker on every dump.
@@ -604,6 +607,35 @@ def disagreement_probes(script, out, step, metric):
     return probes
 
 
+def variant_view(line):
+    """what the two GNAT variants must agree on for one output line: the result (distance lists, not element
+    identities), size() and list() as a multiset; and, separately, the tree dump without `off=`."""
+    parts = line.split(" | ")
+    r = canon(parts[0])
+    if r.startswith("d=") and " e=" in r:
+        r = r.split()[0]
+    st = parts[1].split() if len(parts) > 1 else []
+    ls = " ".join(st[:2]) + " " + " ".join(sorted(st[2:])) if st else ""
+    dump = " ".join(t for t in parts[2].split() if not t.startswith("off=")) if len(parts) > 2 else ""
+    return (r, ls), dump
+
+
+def variants_agree(ck, hbin, script, out, reuse):
+    """run the same history (same parameters, same RNG seed) through the other GNAT variant.
+    returns (None | (step, ours, theirs), number of steps with identical tree dumps, steps)."""
+    other = [script[0].replace("kind=gnat ", "kind=gnatnts ")] + script[1:]
+    out2, _res2 = evaluate(ck, hbin, other, reuse)
+    same = 0
+    for i in range(max(len(out), len(out2))):
+        a = variant_view(out[i]) if i < len(out) else (("<missing>", ""), "")
+        b = variant_view(out2[i]) if i < len(out2) else (("<missing>", ""), "")
+        if a[0] != b[0]:
+            return (i, out[i] if i < len(out) else "<missing>", out2[i] if i < len(out2) else "<missing>"), same, i
+        if a[1] == b[1]:
+            same += 1
+    return None, same, max(len(out), len(out2))
+
+
 # ---------------------------------------------------------------------------------- judging
 # The harness is built with ASan, whose quarantine keeps freed chunks out of circulation, so a stale address
 # (e.g. in GNAT's removed_ set) never meets a new element.  "reuse" mode switches the quarantine off so that
@@ -686,6 +718,20 @@ def judge(ck, hbin, script, tag, lock):
     corr = None
     if res["fail"] is None:
         corr = correspondence(ck, script, out)
+    if kv["kind"] == "gnat" and res["fail"] is None:
+        # the thread-safe variant and GNATNoThreadSafety on the identical history with the same RNG seed
+        bad, same, steps = variants_agree(ck, hbin, script, out, reuse)
+        with lock:
+            ck.count("gnat-variants:histories-compared")
+            ck.count("gnat-variants:steps-compared", steps)
+            ck.count("gnat-variants:steps-with-identical-tree-dump", same)
+            if bad is not None:
+                new = ck.report({"engine": ENGINE, "kind": "gnat-vs-gnatnts", "metric": kv["metric"], "class": "variants-disagree",
+                                 "what": "NearestNeighborsGNAT and NearestNeighborsGNATNoThreadSafety answer differently on the same history at step %d" % bad[0]},
+                                script=script[:bad[0] + 2], expected=[bad[1][:400]], observed=[bad[2][:400]], engine=ENGINE)
+                if new:
+                    ck.log("GNAT variants disagree at step %d: %r vs %r" % (bad[0], bad[1][:160], bad[2][:160]))
+                return not new
     with lock:
         ck.traces_validated += 1
         ck.case(tuple(script), res["queries"] > 0 and res["maxn"] >= 4 and (res["internal"] or not kv["kind"].startswith("gnat")))
@@ -797,6 +843,68 @@ def judge(ck, hbin, script, tag, lock):
     return True
 
 
+# ---------------------------------------------------------------------------------- which structure a planner gets
+SPACES_CLAIM = {   # what the shipped spaces claim (isMetricSpace); Moebius / Klein: false since fix 02d37426b
+    "rv3": 1, "so2": 1, "so3": 1, "se2": 1, "se3": 1, "dubins": 0, "rs": 1, "mobius": 0, "klein": 0,
+    "rv3+so3": 1, "rv3+mobius": 0, "so3+klein": 0, "se2+mobius": 0, "se3+rs": 1, "dubins+rv3": 0,
+}
+PLANNERS_MT = {"mt0": 0, "mt1": 1, "RRT": 0, "RRTConnect": 0, "pRRT": 1, "PRM": 1, "pSBL": 1}
+
+
+def default_selection(ck):
+    """real tools::SelfConfig::getDefaultNearestNeighbors (harness/nn_default.cpp, linked against libompl) on every
+    space x planner combination vs the model `defaultNN` / `compoundIsMetric` (drv_nn `defaultnn`), plus the
+    property itself on the real answers: a GNAT variant only if the space claims to be metric, SqrtApprox otherwise."""
+    hbin = ck.build_harness("nn_default", ["nn_default.cpp"], link_ompl=True)
+    combos = [(sp, pl) for sp in SPACES_CLAIM for pl in PLANNERS_MT]
+    script = ["nndefault"] + ["sel %s %s" % c for c in combos]
+    out, rc, err = ck.run_bin(hbin, script, timeout=120)
+    out = out or []
+    if rc != 0 or len(out) != len(combos):
+        ck.report({"engine": ENGINE, "what": "nn_default harness failed", "class": "crash"}, script=script,
+                  expected=["%d answers" % len(combos)], observed=(out + [(err or "")[-400:]]), engine=ENGINE)
+        return
+    drv = ["nn kind=linear metric=abs1"]
+    real = []
+    for (sp, pl), o in zip(combos, out):
+        kv = dict(t.split("=") for t in o.split())
+        real.append(kv)
+        drv.append("defaultnn %s %s" % (kv["mt"], " ".join(kv["comps"].split(","))))
+    model, rc2, err2 = ck.run_bin(ck.driver(DRIVER), drv)
+    if rc2 != 0:
+        raise RuntimeError("drv_nn failed: %s" % (err2 or "")[-500:])
+    for i, ((sp, pl), kv) in enumerate(zip(combos, real)):
+        ck.case(("defaultnn", sp, pl), True)
+        ck.count("defaultnn:" + kv["kind"])
+        problems = []
+        want_kind = ("gnat" if kv["mt"] == "1" else "gnatnts") if kv["metric"] == "1" else "sqrt"
+        if kv["kind"] in ("gnat", "gnatnts") and kv["metric"] != "1":
+            problems.append("a GNAT variant was selected for a space that does not claim to be a metric space")
+        if kv["kind"] != want_kind:
+            problems.append("selected %s, the documented rule gives %s" % (kv["kind"], want_kind))
+        if int(kv["metric"]) != SPACES_CLAIM[sp]:
+            problems.append("isMetricSpace() is %s, expected %d for this space" % (kv["metric"], SPACES_CLAIM[sp]))
+        if int(kv["mt"]) != PLANNERS_MT[pl]:
+            problems.append("specs.multithreaded is %s, expected %d for this planner" % (kv["mt"], PLANNERS_MT[pl]))
+        if problems and len(ck.violations) >= 3:
+            ck.count("defaultnn:further-failures-not-reported")
+            continue
+        if problems:
+            ck.report({"engine": ENGINE, "what": "default nearest-neighbour selection: " + "; ".join(problems),
+                       "class": "default-selection", "space": sp, "planner": pl},
+                      script=["nndefault", "sel %s %s" % (sp, pl)], expected=["metric=%d kind=%s" % (SPACES_CLAIM[sp], want_kind)],
+                      observed=[out[i]], engine=ENGINE)
+            continue
+        got = model[i] if i < len(model) else "<missing>"
+        want = "metric=%s kind=%s" % (kv["metric"], kv["kind"])
+        if got != want:
+            ck.disagreements += 1
+            ck.report({"engine": ENGINE, "what": "model/implementation disagreement (default selection)"},
+                      script=["nndefault", "sel %s %s" % (sp, pl)], expected=[got], observed=[want], found_input=False,
+                      engine=ENGINE, obligation="correspondence nn: defaultNN / compoundIsMetric vs getDefaultNearestNeighbors on %s x %s" % (sp, pl))
+    ck.traces_validated += 1
+
+
 def corpus():
     d = os.path.join(core.VERIF, "corpus", "C10")
     out = []
@@ -809,6 +917,7 @@ def corpus():
 
 def setup(ck):
     build(ck)
+    ck.build_harness("nn_default", ["nn_default.cpp"], link_ompl=True)
 
 
 def run(ck):
@@ -826,6 +935,7 @@ def run(ck):
     if ck.tier == "thorough" and ck.lean_ok:
         ck.leanchecker(["OmplModel.Props.C10"])
     hbin = build(ck)
+    default_selection(ck)
     lock = threading.Lock()
     jobs = []
     for name, script in corpus():
@@ -858,6 +968,20 @@ def run(ck):
 
 
 def replay(ck, data):
+    if data["script"] and data["script"][0] == "nndefault":
+        hb = ck.build_harness("nn_default", ["nn_default.cpp"], link_ompl=True)
+        out, rc, err = ck.run_bin(hb, data["script"], timeout=120)
+        rcode = 0
+        for ln, o in zip(data["script"][1:], out or []):
+            sp, pl = ln.split()[1:3]
+            kv = dict(t.split("=") for t in o.split())
+            want = ("gnat" if kv["mt"] == "1" else "gnatnts") if kv["metric"] == "1" else "sqrt"
+            ok = kv["kind"] == want and int(kv["metric"]) == SPACES_CLAIM.get(sp, int(kv["metric"]))
+            print("%-24s impl: %s   %s" % (ln, o, "ok" if ok else "PROPERTY FAILS (rule gives %s, claim table %s)" % (want, SPACES_CLAIM.get(sp))))
+            rcode |= 0 if ok else 1
+        if rcode == 0:
+            print("no failure on the current tree")
+        return rcode
     hbin = build(ck)
     ck.lean_build([DRIVER])
     script = data["script"]
@@ -900,7 +1024,11 @@ MANIFEST = {
             "SqrtApprox; the GNAT operations re-executed by the model from the previous dump of the real tree with the recorded "
             "k-centers draws, dumps compared token for token) and by state injection (the model's queries and the executable "
             "GnatInv run on dumps of the real GNAT trees after every operation), plus an independent brute-force "
-            "multiset/distance-list oracle on the implementation's own outputs over a parameter grid.",
+            "multiset/distance-list oracle on the implementation's own outputs over a parameter grid. Callers: the model of "
+            "SelfConfig::getDefaultNearestNeighbors hands a GNAT variant only to spaces claiming to be metric and SqrtApprox (exact "
+            "nearestK/R for any distance function) otherwise (default_nn_exact_only_if_metric), compared with the real selection by "
+            "dynamic type on shipped spaces x planners; the two GNAT variants agree (gnat_variants_agree) and are run against each "
+            "other on identical histories.",
     "note": "Trusted: Lean kernel, the three standard axioms, the hand-written model outside what the correspondence explored "
             "(addresses -> ids, unstable sort, add()'s isRemoved test on the caller's object), the harness. Operation theorems "
             "assume degree/minDegree/maxDegree >= 1 (minDegree = 0 makes the real split() call kcenters with k = 0: candidate "
